@@ -107,6 +107,7 @@ def check(src, rep):
 def _reader_clause(rep, src):
     from sa.cross import include
     include(rep, src, "C05", {"R1", "R2", "R3", "R4"}, "R7", "readouts obtained from the reader under every splitting are built from exactly the transmitted lines")
+    include(rep, src, "C14", {"R1"}, "R3", "is_valid (and the other accessors of a readout) answer instead of raising", at_prefix="dlde.DataReadout")
 
 
 def _mentions(sv, pred):
